@@ -9,6 +9,9 @@ compared with the implementation's.
 Oracle: PV.EDSpec.chi on the full Fock space (tools/edlib, driver_ed) against TwoParticleGF::operator() and the table
 returned by compute(clear, freqs): all index patterns, the resonance patterns of the frequency triple, complex off-axis
 triples, purge on/off, vanishing components, empty frequency lists (the latter under UBSan).
+Distributed slice (distributed_slice): TwoParticleGF::compute(clear, freqs, comm) under mpiexec on 2-3 (thorough: up to 7) ranks
+through harness h_c06: every rank's on-demand values and rank 0's table against the single-rank run, which is compared with
+the oracle on the spot (terms kept and broadcast from the rank that computed each part).
 """
 import json
 import math
@@ -538,6 +541,110 @@ def report(chk, first, h, d):
         chk.extra["refused_insertions_seen"] = {"family": s.fam, "quad": list(qd), "count": n, "scenario": s.text}
 
 
+# the distributed slice: index quadruples on C06's two-site model (modes: 0 = A up, 1 = A down, 2 = B up, 3 = B down) and
+# frequency triples that reach both kinds of resonant terms (n1+n2 = -1; n2 = n3) as well as none
+DIST_QUADS = [(0, 1, 0, 1), (0, 2, 0, 2), (0, 3, 2, 1), (1, 3, 1, 3), (2, 3, 2, 3), (0, 2, 2, 0)]
+DIST_TRIPLES = [(0, 0, 0), (0, -1, 0), (1, -2, 1), (2, 1, 1), (1, 2, -2)]
+
+
+def distributed_slice(chk, quick):
+    """TwoParticleGF::compute(clear, freqs, comm) on P > 1 ranks (harness h_c06 under mpiexec, the `chi` command): the parts are
+    computed by whichever rank the dispatcher hands them to, the table is reduced to rank 0 and, when the terms are kept, every
+    part's two term lists are broadcast from the rank that computed it.  Afterwards
+      * on-demand evaluation on EVERY rank must equal the single-rank on-demand value (which is compared with the definition,
+        EDSpec.chi on the full space, right here), and
+      * the table returned on rank 0 must equal the single-rank table and rank 0's own on-demand values.
+    Termination is C06's business: a launch that does not end normally is only noted."""
+    import C06
+    h = pv.build_harness("h_c06")
+    quads = DIST_QUADS[:3] if quick else DIST_QUADS
+    nf = len(DIST_TRIPLES)
+    tr = " ".join("%d %d %d" % t for t in DIST_TRIPLES)
+
+    def cmds_for(clear):
+        return "".join("chi %d %d %d %d %d %d %s\n" % (q + (clear, nf, tr)) for q in quads)
+
+    def vals(tokens):
+        return [None if tokens[2 * f] == "THROWS" else complex(HX(tokens[2 * f]), HX(tokens[2 * f + 1])) for f in range(len(tokens) // 2)]
+
+    def key(q):
+        return tuple(str(x) for x in q)
+
+    rc, ranks, err = C06.launch(h, 1, cmds_for(0), threads=1, timeout=120)
+    ref = C06.parse(ranks[0])
+    if rc != 0 or not ref["done"] or any(key(q) not in ref["chieval"] or key(q) not in ref["chitable"] for q in quads):
+        chk.tie_broken("h_c06 single-rank reference (C02 distributed slice)", "rc=%s %s %s" % (rc, err, ref["throws"][:2]))
+        return
+    refv = {q: vals(ref["chieval"][key(q)]) for q in quads}
+    reft = {q: vals(ref["chitable"][key(q)]) for q in quads}
+    # the single-rank reference against the definition (fixed model: measured agreement ~1e-14; allowed 1e-9 relative to 1+|chi|)
+    r = edlib.run(C06.MODEL, ["chi %d %d %d %d 0 %d %s" % (q + (nf, tr)) for q in quads], variant="real", timeout=600)
+    orc = [t for t in r.oracle if t[0] == "CHI"]
+    if r.crash or r.error or len(orc) != len(quads) or (r.cert and max(r.cert) > 1e-9):
+        chk.tie_broken("oracle for the distributed slice", "%s %s %s" % (r.crash, r.error, r.cert))
+        orc = None
+    worst = 0.0
+    for qi, q in enumerate(quads):
+        for f, t in enumerate(DIST_TRIPLES):
+            a = refv[q][f] if f < len(refv[q]) else None
+            tb = reft[q][f] if f < len(reft[q]) else None
+            conf1 = {"harness": "h_c06", "P": 1, "commands": cmds_for(0), "model": C06.MODEL, "threads": 1, "quad": list(q), "triple": list(t)}
+            if a is None or tb is None or not abs(tb - a) <= 1e-12 * (1 + abs(a)):
+                chk.violation("table: entry differs from on-demand evaluation",
+                              "two-site model of the distributed slice, quad %r triple %r on one rank: table entry %s, on-demand %s" % (q, t, tb, a), conf1)
+                return
+            if orc:
+                o = complex(HX(orc[qi][5 + 2 * f]), HX(orc[qi][6 + 2 * f]))
+                worst = max(worst, abs(a - o) / (1 + abs(o)))
+                if not abs(a - o) <= 1e-9 * (1 + abs(o)):
+                    chk.violation("value: chi differs from its definition",
+                                  "two-site model of the distributed slice, quad %r (%s) triple %r (resonance pattern %s): TwoParticleGF returns %s, "
+                                  "the documented definition gives %s" % (q, idxpat(q), t, respat(t), a, o), conf1)
+                    return
+    chk.extra["distributed_slice"] = {"quads": [list(q) for q in quads], "triples": [list(t) for t in DIST_TRIPLES],
+                                      "single_rank_vs_definition_max_rel": worst, "launches": []}
+    reported = set()
+    for P in ((2, 3) if quick else (2, 3, 4, 5, 7)):
+        for clear in ((0,) if quick else (0, 1)):
+            cmds = cmds_for(clear)
+            rc, ranks, err = C06.launch(h, P, cmds, threads=1, timeout=60)
+            chk.case("mpi %d %d" % (P, clear), "distributed compute P=%d %s" % (P, "purge" if clear else "keep"), True, None)
+            chk.extra["distributed_slice"]["launches"].append({"P": P, "clear": clear, "rc": rc})
+            if rc != 0:
+                chk.notes.append("distributed slice: launch P=%d clear=%d ended with rc=%s (termination is decided by C06)" % (P, clear, rc))
+                continue
+            conf = {"harness": "h_c06", "P": P, "commands": cmds, "model": C06.MODEL, "threads": 1}
+            for rk in sorted(ranks):
+                o = C06.parse(ranks[rk])
+                for q in quads:
+                    ev = vals(o["chieval"].get(key(q), []))
+                    tb = vals(o["chitable"].get(key(q), []))
+                    for f, t in enumerate(DIST_TRIPLES):
+                        a = ev[f] if (not clear and f < len(ev)) else None
+                        b = tb[f] if f < len(tb) else None
+                        if not clear and (a is None or not abs(a - refv[q][f]) <= 1e-10 * (1 + abs(refv[q][f]))) and "eval" not in reported:
+                            reported.add("eval")
+                            chk.violation("distributed-evaluation: on-demand value after compute(clear=false) on several ranks",
+                                          "two-site model, quad %r (%s) triple %r (resonance pattern %s): after compute(false, freqs, comm) on %d ranks, "
+                                          "on-demand evaluation on rank %d gives %s; on one rank (= the definition) it gives %s"
+                                          % (q, idxpat(q), t, respat(t), P, rk, "an exception" if a is None else a, refv[q][f]),
+                                          dict(conf, quad=list(q), triple=list(t), rank=rk))
+                        if rk != 0:
+                            continue
+                        if (b is None or not abs(b - reft[q][f]) <= 1e-10 * (1 + abs(reft[q][f]))) and "table" not in reported:
+                            reported.add("table")
+                            chk.violation("distributed-table: table returned by compute on several ranks",
+                                          "two-site model, quad %r triple %r: compute(%s, freqs, comm) on %d ranks returns the entry %s on rank 0; "
+                                          "on one rank %s" % (q, t, "true" if clear else "false", P, "(missing)" if b is None else b, reft[q][f]),
+                                          dict(conf, quad=list(q), triple=list(t), rank=0))
+                        if a is not None and b is not None and not abs(b - a) <= 1e-10 * (1 + abs(a)) and "table-eval" not in reported:
+                            reported.add("table-eval")
+                            chk.violation("distributed-table-vs-evaluation: returned table differs from on-demand evaluation",
+                                          "two-site model, quad %r (%s) triple %r (resonance pattern %s): compute(false, freqs, comm) on %d ranks returns the "
+                                          "table entry %s on rank 0, on-demand evaluation on the same rank afterwards gives %s"
+                                          % (q, idxpat(q), t, respat(t), P, b, a), dict(conf, quad=list(q), triple=list(t), rank=0))
+
+
 def generate(chk, variant, families, nq, ntr):
     out = []
     for famfn in families:
@@ -569,7 +676,7 @@ def run(chk):
                     "the oracle: coq/theories/EDSpec.v (chi, phi) extracted to ED_model.ml, ocaml/driver_ed.ml, tools/edlib.py",
                     "the derivation of the kernel phi from the triple imaginary-time integral (Hafermann et al., EPL 85 27007): phi_is_integral is not proved",
                     "g++ 12 / Eigen / Boost / Open MPI as used by the library build; binary64 exp of the C library"]
-    chk.assume += ["single rank, OMP_NUM_THREADS=1 (rank/thread independence is C06)",
+    chk.assume += ["single rank, OMP_NUM_THREADS=1, except in the distributed slice (2..7 ranks, one model; rank/thread independence at large is C06)",
                    "scenario amplitudes are dyadic except in the diag-straddle family, whose level spacings (6e-9, 1.2e-8, 3e-8) are chosen around the 1e-8 thresholds",
                    "comparison tolerance = 1e-11*S0 + 1e-16*S2 + (3e-8 in the diag-straddle family, else 1e-13)*S1 with S0 = sum of the magnitudes of all pieces of all "
                    "multiterms (weights entering a difference counted as a sum), S1 = the same weighted by sum 1/|denominator|, S2 = sum of the inverse denominator products"]
@@ -591,10 +698,13 @@ def run(chk):
         s.run(hh, d)
         check_scenario(chk, s, hh, d, first)
     report(chk, first, h, d)
+    distributed_slice(chk, quick)
     chk.rule = ("scenarios from the shared families (Hubbard atom incl. half filling, free degenerate, atomic limit, two-site, Anderson; thorough: Kanamori, exchange, "
                 "complex hoppings on the complex build) plus a diagonal family with level spacings 6e-9 / 1.2e-8 / 3e-8; per scenario 6-10 index quadruples covering the "
                 "patterns direct, exchange, i=j, k=l, all equal, all distinct, random; per quadruple the fixed triples hitting n1=n3, n2=n3, n1+n2=-1 and their "
                 "coincidences plus random ones, two to three complex off-axis triples (one with z1+z2=0), purge off and on, one empty frequency list; "
+                "a distributed slice (2-3, thorough up to 7 MPI ranks, one two-site model, 3-6 quadruples, 5 triples: every rank's on-demand values and "
+                "rank 0's table against the single-rank run and the definition); "
                 "a case is distinct by (scenario text, quadruple, triple, purge) and non-trivial when the component vanishes by symmetry or the exact value is "
                 "not numerically zero; term-list cases are non-trivial when the part has terms")
     chk.extra["scenarios"] = len(scs)
@@ -606,6 +716,16 @@ def replay(chk, path):
     rp = r.get("replay", {})
     print(json.dumps({k: r[k] for k in ("property", "key", "what") if k in r}, indent=1))
     variant = rp.get("variant", "real") if isinstance(rp, dict) else "real"
+    if isinstance(rp, dict) and rp.get("harness") == "h_c06":
+        import C06
+        rc, ranks, err = C06.launch(pv.build_harness("h_c06"), rp["P"], rp["commands"], threads=rp.get("threads", 1), timeout=120, model=rp.get("model"))
+        print("exit", rc, err)
+        for k in ranks:
+            for t in ranks[k]:
+                if t[0] in ("CHITABLE", "CHIEVAL", "DONE", "THROWS"):
+                    print("rank", k, " ".join(t)[:400])
+        distributed_slice(chk, chk.tier == "quick")
+        return chk.finish()
     if isinstance(rp, dict) and "input" in rp:
         h = pv.build_harness("h_c02", variant)
         rc, out, err = pv.run_harness(h, rp["input"], timeout=600)
@@ -628,4 +748,5 @@ def setup():
     pv.build_driver("driver_c02", ["C02_model"], floats=True)
     pv.build_harness("h_c02", "real")
     pv.build_harness("h_c02", "asan")
+    pv.build_harness("h_c06")
     edlib.binaries("real")
